@@ -15,7 +15,7 @@ RULE = ('case = (record lengths, content class, blocked?, writer API, reader API
         'lengths (distinct by construction); multi-record lists are distinct by digest. Non-trivial: at least one record.')
 ASSUMPTIONS = ['vmon/ref/blocking.py', 'io.BytesIO', 'records are non-empty and at most MAX_VBS_RECORD_LENGTH (6000) bytes']
 CONTENTS = ('coded', 'zeros', 'fill', 'term_head', 'term_tail', 'pad_head', 'pad_tail', 'random')
-WRITE_APIS = ('class_close', 'with', 'write_many', 'conv')
+WRITE_APIS = ('class_close', 'with', 'write_many', 'conv', 'with_close')
 READ_APIS = ('class', 'conv', 'next_then_for', 'for_break_for', 'list_twice')
 _CODED = coded(10200)
 
@@ -68,7 +68,7 @@ def cases(ctx):
                         lens = [first, 7, 1012 - 11 - 4, 3]
                         if first >= 1:
                             yield {'kind': 'list', 'lens': lens, 'content': cls, 'blocked': blocked,
-                                   'wapi': WRITE_APIS[(k + d) % 4], 'rapi': READ_APIS[(k + d) % 5]}
+                                   'wapi': WRITE_APIS[(k + d) % len(WRITE_APIS)], 'rapi': READ_APIS[(k + d) % 5]}
                     i += 1
     # the configured maximum is whatever the configuration says now: records up to a raised maximum must survive too
     for newmax in (10000, 6500, 3000):
@@ -112,6 +112,12 @@ def write_file(ctx, recs, blocked, wapi):
             with m.VbsWriter(f, blocked=blocked) as w:
                 for r in recs:
                     w.write(r)
+        elif wapi == 'with_close':
+            # the belt-and-braces idiom: an explicit close inside the with block (the file is then finalised twice)
+            with m.VbsWriter(f, blocked=blocked) as w:
+                for r in recs:
+                    w.write(r)
+                w.close()
         else:
             w = m.VbsWriter(f, blocked=blocked)
             w.write_many(iter(recs))
